@@ -779,3 +779,83 @@ def loop_carried_parameter_obligations(model, rep, fns, clause, rule="LOOPVAR"):
                    f"`{norm_src(bad)[:80]}` inside `for {norm_src(lp.target)} in ...`: the value is converted again on every iteration" if bad is not None else "",
                    node=(bad if bad is not None else lp), fn=fn, clause=clause, stmt=(None if bad is not None else f"loop over {norm_src(lp.iter)[:40]} in {fn.name}"))
     return n
+
+
+# ----------------------------------------------------------------------------------------------------------------------------------------------------------
+# SHELLMEAN - the landscape value is the mean over all shells
+
+
+def shell_mean_obligations(model, rep, fn, clause, rule="H"):
+    """fsc_landscape stores, per trial shift, the mean of the per-shell correlation over the shells 0..nlabels (nlabels + 1 of them, `index = arange(0, nlabels + 1)`).
+    Accepted: `<per-shell array>.mean()`, or a sum divided by the number of shells (len(index), index.size, nlabels + 1).  A sum divided by `nlabels` itself - the
+    largest label - is (n + 1) / n too large: identical inputs score above 1."""
+    M = Matcher(fn)
+    n = 0
+    for st in ast.walk(fn.node):
+        if not (isinstance(st, ast.Assign) and len(st.targets) == 1 and isinstance(st.targets[0], ast.Subscript)):
+            continue
+        v = st.value
+        while isinstance(v, ast.Call) and (dotted(v.func) or "") in ("float", "np.float32") and v.args:
+            v = v.args[0]
+        if isinstance(v, ast.Call) and isinstance(v.func, ast.Attribute) and v.func.attr == "mean":
+            n += 1
+            rep.instance(rule + ".shellmean", fn.loc(st))
+            rep.ob(rule, fn.anchor, "the landscape value is the mean of the per-shell correlation over all shells", True, "", node=st, fn=fn, clause=clause,
+                   stmt="shell mean")
+        elif isinstance(v, ast.BinOp) and isinstance(v.op, ast.Div) and any(isinstance(x, ast.Call) and isinstance(x.func, ast.Attribute) and x.func.attr == "sum"
+                                                                           for x in ast.walk(v.left)):
+            n += 1
+            rep.instance(rule + ".shellmean", fn.loc(st))
+            den_raw = norm_src(v.right)
+            den = norm_src(M.expr(v.right))
+            good = any(t in den_raw or t in den for t in ("len(index)", "index.size", "index.shape[0]", "nlabels + 1", "1 + nlabels", ".size", "len("))
+            bad = (".max()" in den and "+ 1" not in den and "1 +" not in den) or den_raw.strip() == "nlabels"
+            if not good and not bad:
+                rep.note(f"shell mean: divisor `{den_raw}` not classified")
+                continue
+            rep.ob(rule, fn.anchor, "the landscape value is the mean of the per-shell correlation over all shells", True if (good and not bad) else False,
+                   f"`{norm_src(st)[:70]}` divides the sum over the shells by `{den_raw}` (= {den[:40]}): there are nlabels + 1 shells (labels 0..nlabels), the score is "
+                   f"(n + 1) / n too large" if bad else f"divisor `{den_raw}`", node=st, fn=fn, clause=clause, stmt="shell mean")
+    return n
+
+
+# ----------------------------------------------------------------------------------------------------------------------------------------------------------
+# MEMO - a per-object memo must be invalidated by every method that changes the object
+
+
+def stale_memo_obligations(model, rep, classes, clause, rule="MEMO"):
+    """A field used as a memo inside a method (`v = self.F.get(k)` / `k in self.F` ... `self.F[k] = v`) caches something computed from the object's state.  If some
+    method of the class or of a subclass (other than __init__) re-binds or mutates other state of the object (`self._molecules = ...` in add_tomogram) without
+    clearing that field, later reads return the value computed for the old state."""
+    n = 0
+    for ci in classes:
+        family = [ci] + [c for c in model.all_classes if c is not ci and c.is_subclass_of(ci)]
+        methods = [f for f in model.all_functions if f.cls in family and f.parent is None]
+        memo_fields = {}
+        for f in methods:
+            stores = {t.value.attr for st in ast.walk(f.node) if isinstance(st, ast.Assign) for t in st.targets
+                      if isinstance(t, ast.Subscript) and isinstance(t.value, ast.Attribute) and norm_src(t.value.value) == "self"}
+            reads = {c.func.value.attr for c in ast.walk(f.node) if isinstance(c, ast.Call) and isinstance(c.func, ast.Attribute) and c.func.attr == "get" and
+                     isinstance(c.func.value, ast.Attribute) and norm_src(c.func.value.value) == "self"}
+            reads |= {x.comparators[0].attr for x in ast.walk(f.node) if isinstance(x, ast.Compare) and len(x.ops) == 1 and isinstance(x.ops[0], (ast.In, ast.NotIn)) and
+                      isinstance(x.comparators[0], ast.Attribute) and norm_src(x.comparators[0].value) == "self"}
+            for fld in stores & reads:
+                memo_fields.setdefault(fld, f)
+        for fld, user in sorted(memo_fields.items()):
+            n += 1
+            rep.instance(rule, user.loc())
+            stale = []
+            for g in methods:
+                if g.name == "__init__" or g is user:
+                    continue
+                changes = [st for st in ast.walk(g.node) if isinstance(st, (ast.Assign, ast.AugAssign)) and
+                           any(isinstance(t, ast.Attribute) and norm_src(t.value) == "self" and t.attr != fld
+                               for t in (st.targets if isinstance(st, ast.Assign) else [st.target]))]
+                clears = any(isinstance(x, ast.Attribute) and x.attr == fld for x in ast.walk(g.node))
+                if changes and not clears:
+                    stale.append((g, changes[0]))
+            rep.ob(rule, user.anchor, f"the memo `self.{fld}` is cleared by every method that changes the object", not stale,
+                   (f"`{stale[0][0].short}` does `{norm_src(stale[0][1])[:50]}` and leaves `self.{fld}` as it is: `{user.name}` then returns the value computed before "
+                    f"the change") if stale else "", node=(stale[0][1] if stale else user.node), fn=(stale[0][0] if stale else user), clause=clause,
+                   stmt=(None if stale else f"memo {fld} in {user.name}"))
+    return n
